@@ -5,14 +5,17 @@ from ..symexec import SymExec, variant_name
 from ..facts import AnchorMissing
 from . import C10
 
-LEVEL = ("TABLE rules with mathematical oracles: the affine view y = a·x+b maps every bound query, "
-         "bound setter and bound predicate to the inner operation and rounding dictated by the sign "
-         "of a (all 8 functions × 2 signs, siblings dual to each other); map/invert/scaled/offset "
-         "compute a·v+b, ⌈(v−b)/a⌉ / ⌊(v−b)/a⌋, (a·k, b·k), b+k; div_ceil/div_floor are decided by "
-         "abstract evaluation over all 14 sign/divisibility cases; the value tests guard with a "
-         "divisibility test of v−b by a; Literal delegates to the same-named method; posting "
-         "propagates before returning Ok; bounds only tighten; bounds are only readable at decision "
-         "level 0 (typestate, shared with C10). Does not decide that root propagation is sound")
+LEVEL = ('TABLE rules with mathematical oracles: the affine view y = a·x+b maps every bound query, '
+         'bound setter and bound predicate to the inner operation and rounding dictated by the sign of'
+         ' a (all 8 functions × 2 signs, siblings dual to each other); map/invert/scaled/offset '
+         'compute a·v+b, ⌈(v−b)/a⌉ / ⌊(v−b)/a⌋, (a·k, b·k), b+k; div_ceil/div_floor are decided by '
+         'abstract evaluation over all 14 sign/divisibility cases; the value tests guard with a '
+         'divisibility test of v−b by a; Literal delegates to the same-named method; posting '
+         'propagates before returning Ok; bounds only tighten; bounds are only readable at decision '
+         'level 0 (typestate, shared with C10). Also runs the LIFE-CYCLE BUNDLE (…L<n>): the typestate'
+         ' rules over arbitrary API sequences of C10 (usable root state after every call, inert '
+         'posting in inconsistent states, entry guards, stored-solution extent). Does not decide that '
+         'root propagation is sound')
 TECHNIQUE = "static analysis: path-wise symbolic table recovery + abstract sign evaluation over rustc MIR"
 
 VIEW = "AffineView"
@@ -612,3 +615,5 @@ def run(ctx, led):
     run_rule(led, "V5", "a reified propagator forgets its cached inconsistency on every synchronise, so a conflict of an abandoned branch cannot fix the reification literal at the root (shared with C09-R3)", _C09.r3, ctx)
     from . import fznrules as _fz
     run_rule(led, "V6", "ZIP-ALIGNMENT: weights and variables are paired position by position (shared with C13-F11)", _fz.zip_alignment, ctx)
+    from . import kernel as _kernel2
+    _kernel2.run_lifecycle(led, ctx, "V")
